@@ -62,6 +62,82 @@ def run_threads(chk, flavor, nthreads, rounds, hs, label):
     return merged
 
 
+def output_digests(files):
+    """per thread: per execution (history), the digests of its closed outputs in order (decompressed bytes as logged)"""
+    import hashlib
+    per = []
+    for f in files:
+        runs, cur = [], None
+        for line in (Path(f).read_text().splitlines() if Path(f).exists() else []):
+            try:
+                ev = json.loads(line)
+            except Exception:
+                break
+            if ev.get("e") == "R":
+                cur = []
+                runs.append(cur)
+            elif ev.get("e") == "OUT" and cur is not None:
+                cur.append(hashlib.sha256(json.dumps(ev["bytes"]).encode()).hexdigest()[:24])
+        per.append(runs)
+    return per
+
+
+def run_bytes(chk, nthreads, rounds, hs, label):
+    """Byte identity: the outputs of N threads running their programs concurrently against the outputs of the same
+    programs executed one after another on one thread of a fresh process (C20: 'byte-identical outputs ... to those of
+    the same work executed sequentially').  The comparison of the digests is TLC's (TraceReader event B)."""
+    work = vlib.scratch(label)
+    hist = work / "hist.ndjson"
+    hist.write_text("\n".join(json.dumps(h) for h in hs) + "\n")
+    exe = vlib.build_driver("thr_driver", "plain")
+    env = dict(os.environ, VERIF_TMP=str(work))
+    dig = {}
+    for mode in ("seq", "run"):
+        prefix = work / mode
+        r = subprocess.run(["timeout", "900", str(exe), mode, str(hist), str(nthreads), str(rounds), str(prefix)],
+                           capture_output=True, text=True, env=env)
+        if r.returncode != 0:
+            raise vlib.Infra(f"thr_driver {mode} failed rc={r.returncode}: {r.stderr[-400:]}")
+        dig[mode] = output_digests([Path(f"{prefix}.{t}.ndjson") for t in range(nthreads)])
+    events = []
+    for t in range(nthreads):
+        if len(dig["seq"][t]) != len(dig["run"][t]):
+            raise vlib.Infra("sequential and concurrent run executed different numbers of histories")
+        for k, (a, b) in enumerate(zip(dig["seq"][t], dig["run"][t])):
+            events.append({"e": "B", "thread": t, "history": k, "seq": a, "thr": b})
+    nsh = min(vlib.NCPU, max(1, len(events)))
+    traces = [work / f"c20b.{i}.ndjson" for i in range(nsh)]
+    for i, tf in enumerate(traces):
+        tf.write_text("\n".join(json.dumps(e) for e in events[i::nsh]) + "\n" + '{"e":"END"}\n')
+    merged = vlib.validate_traces("TraceReader", traces, constants={}, timeout=1200, label=label + "tv", xmx="4g")
+    chk.add_traces(merged, relevant={"C20"})
+    chk.extra["outputs_compared_bytewise"] = chk.extra.get("outputs_compared_bytewise", 0) + sum(len(e["seq"]) for e in events)
+    shutil.rmtree(work, ignore_errors=True)
+    return merged
+
+
+def aec_heavy_histories(rng, n):
+    """Work whose byte layout depends on container internals: blocks with many distinct address events (the iteration
+    order of the aggregation map), differing much in size from thread to thread, several exporters per thread created
+    after other threads have already written blocks."""
+    hs = []
+    for i in range(n):
+        pools = histgen.Pools(rng)
+        bp = histgen.gen_bp(rng, pools, tps=1000000, maxitems=10000, hints=(histgen.ALL_QRH, histgen.ALL_SIGH, 3, 3))
+        k = [3, 40, 700, 12, 150, 5][i % 6]
+        ops = []
+        for j in range(k):
+            r = histgen.gen_aec(rng, pools)
+            r["ip_address"] = [10, (i * 7) % 256, j // 256, j % 256]
+            ops.append({"op": "aec", "r": r})
+            if j % 97 == 96 and rng.random() < 0.5:
+                ops.append({"op": "wb"})
+        ops.append({"op": "qr", "r": histgen.gen_qr(rng, pools, 1000000, 1500000000)})
+        hs.append({"comp": ["none", "gz", "xz"][i % 3], "out": ["file", "fd"][i % 2],
+                   "preamble": {"major": histgen.nat(1), "minor": [], "private": histgen.nat(1), "bps": [bp]}, "ops": ops})
+    return hs
+
+
 def run_readers(chk, tier, flavor, nthreads, label):
     """Concurrent readers over files of other producers (TLC-generated re-encodings with unknown members)."""
     import random
@@ -116,6 +192,8 @@ def run(tier):
                 "exporter (file-name and descriptor outputs, three compression modes), reader and renderers on distinct "
                 "outputs, run concurrently with injected yields; every per-thread trace is validated by TLC with the very "
                 "same TraceExporter spec as sequential runs (any deviation from the sequential semantics is a violation); "
+                "every closed output of the concurrent run is byte-identical to that of the same programs executed one "
+                "after another on one thread (digests compared by TLC), incl. blocks with 3..700 distinct address events; "
                 "the same driver under ThreadSanitizer: a race report truncates the traces; distinct = per-thread executions")
     chk.assumptions = ["TLC + CommunityModules", "ThreadSanitizer happens-before analysis as the instrument for races",
                        "schedules are those the OS produced (sampled), not enumerated"]
@@ -131,6 +209,11 @@ def run(tier):
         execs += m["execs"]
     m = run_threads(chk, "tsan", 8 if tier == "quick" else 16, 1, hs[: (32 if tier == "quick" else 200)], "c20t")
     execs += m["execs"]
+    # byte identity with the sequential execution of the same work
+    hb = hs[: (24 if tier == "quick" else 200)] + aec_heavy_histories(rng, 24 if tier == "quick" else 120)
+    for nt in ([4] if tier == "quick" else [2, 4, 16]):
+        m = run_bytes(chk, nt, 2, hb, f"c20b{nt}")
+        execs += m["execs"]
     m = run_readers(chk, tier, "plain", 8 if tier == "quick" else 16, "c20rp")
     execs += m["execs"]
     m = run_readers(chk, tier, "tsan", 6 if tier == "quick" else 12, "c20rt")
